@@ -64,6 +64,7 @@ fn main() {
             "C07" => netrun::worker(prop, t, shard, n, checks::c07::cases, checks::c07::run_case),
             "C15" => netrun::worker(prop, t, shard, n, checks::c15::cases, checks::c15::run_case),
             "C16" => netrun::worker(prop, t, shard, n, checks::c16::cases, checks::c16::run_case),
+            "C06" => netrun::worker(prop, t, shard, n, checks::c06::cases, checks::c06::run_case),
             "C08" => netrun::worker(prop, t, shard, n, checks::c08::cases, checks::c08::run_case),
             "C04" => netrun::worker(prop, t, shard, n, checks::c04::cases, checks::c04::run_case),
             _ => std::process::exit(2),
@@ -84,6 +85,7 @@ fn main() {
         "C07" => checks::c07::run(&tier, replay),
         "C15" => checks::c15::run(&tier, replay),
         "C16" => checks::c16::run(&tier, replay),
+        "C06" => checks::c06::run(&tier, replay),
         "C08" => checks::c08::run(&tier, replay),
         "C17" => checks::c17::run(&tier, replay),
         "C05" => checks::c05::run(&tier, replay),
